@@ -194,6 +194,8 @@ def run(ctx):
     # 1. design step: the P-layer and the I-layer model checks must pass on the unchanged specification
     mcs = [('MC_PagePool.tla', 'MC_PagePool.cfg'), ('MC_PagePool.tla', 'MC_PagePool_strict.cfg')] + \
           [('MC_PageStackImpl.tla', 'MC_PageStackImpl_%s.cfg' % c) for c in ['2', '2a', '3', '3b'] + (['3t'] if T else [])]
+    if ctx.replay:
+        mcs = []
     mc_f = [pool.submit(vlib.tlc_must_pass, ctx, os.path.join(SPEC, m), os.path.join(SPEC, c), heap='8g',
                         workers=(8 if c.endswith('3t.cfg') else 3)) for m, c in mcs]
 
@@ -209,11 +211,12 @@ def run(ctx):
             sub.drift.append('edge replay of %s could not be completed: %s' % (cfgname, str(e)[:300]))
         return sub
     t1_f = [pool.submit(t1, c, sh) for c, sh in (('MC_PageStackImpl_2_edges.cfg', Shape(2, 2, {0, 1, 2}, {}, P2)),
-                                                  ('MC_PageStackImpl_2a_edges.cfg', Shape(2, 2, {1}, {'p2': {0}, 'p1': {3}}, P2)))]
+                                                  ('MC_PageStackImpl_2a_edges.cfg', Shape(2, 2, {1}, {'p2': {0}, 'p1': {3}}, P2)))
+            if not ctx.replay]
 
     # 3. bounded exhaustive exploration of the real code + random walks
     cap = 8000 if T else 1000              # histories printed per run
-    big = 1500000 if T else 60000          # state bound of the larger runs
+    big = 1000000 if T else 60000          # state bound of the larger runs
     runs = [
         ('X 2 3 2000000 %d' % cap, 'cap=3'),                                   # one leaf in use, everything free
         ('X 2 3 2000000 %d' % cap, 'cap=5 free=0,2,3 hold=1:1'),
@@ -233,14 +236,20 @@ def run(ctx):
     runs += [('W 4 4 %d %d 0' % (nw, ctx.seed + 1), 'cap=12 free=0,5 hold=0:1,1:2,2:3,3:4'),
              ('W 4 4 %d %d 0' % (nw, ctx.seed + 2), 'cap=200 free=0,63,64,100,128,199 hold=0:1,1:65,2:129,3:190'),
              ('W 3 5 %d %d 0' % (nw, ctx.seed + 3), 'cap=66 free=64 hold=0:0,1:1,2:65')]
+    if ctx.replay:
+        # --replay PATH: re-run exactly the explorer/walk run that produced the witness (deterministic) and re-validate it
+        w = json.load(open(ctx.replay)).get('witness', {})
+        if 'run' in w:
+            runs = [tuple(w['run'])]
+        ctx.log('replay: %s' % (runs if 'run' in w else 'witness names no run, everything is re-run'))
     results = explore(ctx, exe, runs)
     for (m, c), f in zip(mcs, mc_f):
         r = f.result()
         ctx.log('TLC %s: %d distinct states, depth %d' % (c, r.distinct, r.depth))
     for f in t1_f:
         f.result().merge()
-    lines, seen = [], set()
-    for cmd, cfg, st, hists, viols in results:
+    lines, seen, origin = [], set(), []
+    for (prefix, _), (cmd, cfg, st, hists, viols) in zip(runs, results):
         ctx.log('explorer %-70s %s' % (cmd, json.dumps({k: v for k, v in st.items() if k != 'x'})))
         ctx.add('impl_states', st.get('states', 0))
         ctx.add('impl_steps', st.get('steps', 0))
@@ -249,13 +258,14 @@ def run(ctx):
         ctx.add('impl_histories_distinct', st.get('histories', st.get('walks', 0)))
         for v in viols[:2]:
             ctx.violation('driver P-monitor: ' + v['what'],
-                          {'kind': 'schedule', 'cmd': cmd, 'path': v.get('path'), 'events': v['ev']})
+                          {'kind': 'schedule', 'run': [prefix, cfg], 'path': v.get('path'), 'events': v['ev']})
         for h in hists:
             ln = hist_line(h, cfg)
             k = json.dumps(ln, sort_keys=True)
             if k not in seen:
                 seen.add(k)
                 lines.append(ln)
+                origin.append([prefix, cfg])
     ctx.cov['exhaustive'] = not any(r[2].get('truncated') for r in results)
     ctx.cov['explorer_runs'] = [dict(cmd=r[0], **{k: v for k, v in r[2].items() if k != 'x'}) for r in results]
 
@@ -273,7 +283,8 @@ def run(ctx):
     ctx.log('TLC validated %d distinct call/return histories against PagePool (P-layer); rejected: %d' % (len(lines), len(rej)))
     for i in rej[:3]:
         ctx.violation('history is not a behaviour of PagePool.tla (P-layer)',
-                      {'kind': 'history', 'events': show(lines[i]) if isinstance(i, int) else i})
+                      {'kind': 'history', 'run': origin[i] if isinstance(i, int) else None,
+                       'events': show(lines[i]) if isinstance(i, int) else i})
     srej = fS.result()
     srej = [sidx[i] for i in srej if isinstance(i, int) and sidx[i] not in set(rej)]
     ctx.cov['strict_checked'] = len(sidx)
@@ -289,7 +300,7 @@ def run(ctx):
                          (len(srej), len(sidx), json.dumps(show(lines[shortest]))))
         if STRICT_DECIDES or vlib.match_known(ctx.prop, {'class': STRICT_CLASS}) is not None:
             ctx.violation('history is not linearizable w.r.t. the atomic pool (PagePool.tla, Strict = TRUE)',
-                          {'kind': 'history', 'class': STRICT_CLASS, 'events': show(lines[shortest])})
+                          {'kind': 'history', 'class': STRICT_CLASS, 'run': origin[shortest], 'events': show(lines[shortest])})
 
     nontrivial = [ln for ln in lines if overlapping(ln)]
     ctx.cov['impl_distinct'] = len(nontrivial)
